@@ -2,6 +2,7 @@ mod common;
 mod engine;
 mod props;
 mod refmodel;
+mod registry;
 
 use engine::{Report, Tier};
 
